@@ -18,7 +18,11 @@ import (
 type rigParam struct {
 	name, ty, loc, wire string
 	ptr                 bool
+	validate            string // a declared validator (beyond the implicit `required`)
 }
+
+// rigOneof: a rule whose argument has quotes and a blank - the routers must hand go-playground this very text
+const rigOneof = "oneof='light blue' navy"
 
 var rigIntRange = map[string][2]string{
 	"int8": {"127", "128"}, "int16": {"32767", "32768"}, "int32": {"2147483647", "2147483648"}, "int64": {"9223372036854775807", "9223372036854775808"},
@@ -175,6 +179,9 @@ func genRigCase(r *rng.R) rigIn {
 					// a repeated query parameter: every element type has its own conversion block per engine
 					q.ty = "[]" + rng.Pick(r, []string{"string", "int", "int64", "uint8", "float64", "float32", "bool", "float64"})
 				}
+				if q.ty == "string" && r.Chance(1, 3) {
+					q.validate = rigOneof
+				}
 				params = append(params, q)
 			}
 			bodyKind := ""
@@ -240,6 +247,12 @@ func genRigCase(r *rng.R) rigIn {
 				if q.wire != q.name {
 					a.Props = map[string]any{"name": q.wire}
 				}
+				if q.validate != "" {
+					if a.Props == nil {
+						a.Props = map[string]any{}
+					}
+					a.Props["validate"] = q.validate
+				}
 				m.Annots = append(m.Annots, a)
 				ty := q.ty
 				if q.ptr {
@@ -284,6 +297,9 @@ func genRigCase(r *rng.R) rigIn {
 					v, has := over[prm.name]
 					if !has {
 						v = rigGoodValue(r, strings.TrimPrefix(prm.ty, "[]"))
+						if prm.validate == rigOneof {
+							v = rng.Pick(r, []string{"light blue", "navy"})
+						}
 					}
 					if prm.name == drop {
 						continue
@@ -428,6 +444,12 @@ func genRigCase(r *rng.R) rigIn {
 				}
 				if base == "string" && prm.loc != "Path" && prm.loc != "Body" && r.Chance(1, 3) {
 					add(build("empty:"+prm.name, vals{prm.name: ""}, "", nil))
+				}
+				if prm.validate == rigOneof {
+					// each declared option is accepted, anything else - the HTML-escaped spelling of an option too - is a 422
+					add(build("oneof-quoted-option:"+prm.name, vals{prm.name: "light blue"}, "", nil))
+					add(build("oneof-plain-option:"+prm.name, vals{prm.name: "navy"}, "", nil))
+					add(build("oneof-miss:"+prm.name, vals{prm.name: rng.Pick(r, []string{"red", "light", "&apos;light", "'light blue'"})}, "", nil))
 				}
 			}
 			bodyIsSlice := false
